@@ -286,6 +286,11 @@ has no operands without elements, because on the unchanged tree most
 operations on such operands already misbehave in exactly this way (known
 finding 3, §10), and a workload that reaches this change would report those as
 well; it is listed in the table with own check exit 0.
+After these last generator changes the changes of C12 and C15 (all of them),
+C07 (A-N and W-AB) and C17 (A-P and W-Z) were run again against the final
+checks - all detected; the rows of the other changes were last produced on the
+machinery of round thirteen, whose generators for those checks did not change
+afterwards (C16 and C18 gained draws from sub-choosers only).
 
 '''
 s = s[:start] + intro + table + "\n\n---------------------------------------------------------------------------\n\n" + s[end:]
